@@ -285,6 +285,56 @@ def truncation_sweep(chk, workdir, refs, offsets="sample"):
     return n
 
 
+def _conc_worker(args):
+    req, d = args
+    from bldfm.cache import GreensFunctionCache
+
+    q, kw = concrete(req)
+    try:
+        out = call_solver(q, kw, cache=GreensFunctionCache(d))
+        return req_key(req), out, None
+    except Exception as ex:  # noqa
+        return req_key(req), None, "%s: %s" % (type(ex).__name__, ex)
+
+
+def concurrent_stress(chk, workdir, refs, rounds):
+    """several processes on one directory at the same time (CacheConc.tla): nothing fatal, every result right"""
+    import multiprocessing as mp
+
+    d = os.path.join(workdir, "conc")
+    n = 0
+    ctx = mp.get_context("fork")
+    reqs = []
+    for h in (0, 2):
+        for lv in (0, 1):
+            r = {p: 0 for p in PARAMS}
+            r["halo"], r["levels"] = h, lv
+            reqs.append(r)
+    for r in reqs:
+        q, kw = concrete(r)
+        refs.setdefault(req_key(r), call_solver(q, kw, cache=None))
+    saved = os.environ.pop("BLDFM_VERIF_TRACE", None)  # interleaved events of several processes are not a TraceCache trace
+    try:
+        for rnd in range(rounds):
+            shutil.rmtree(d, ignore_errors=True)
+            tasks = [(reqs[i % len(reqs)], d) for i in range(16)]
+            with ctx.Pool(8) as pool:
+                outs = pool.map(_conc_worker, tasks, chunksize=1)
+            for rk, out, err in outs:
+                n += 1
+                sc = {"kind": "concurrent", "round": rnd}
+                if err is not None:
+                    chk.violation("a request on a cache directory shared by concurrent processes raised %s" % err, sc, klass={"check": "concurrent_fatal"})
+                    return n
+                if not same_result(out, refs[rk]):
+                    chk.violation("a request on a cache directory shared by concurrent processes returned a wrong result", sc, klass={"check": "concurrent_wrong"})
+                    return n
+    finally:
+        if saved:
+            os.environ["BLDFM_VERIF_TRACE"] = saved
+    return n
+
+
 CACHE_EVENTS = {"cache_get", "cache_hit", "cache_put_begin", "cache_put_end", "ext_truncate", "ext_newdir"}
 
 
@@ -328,7 +378,15 @@ def main():
     chk.add_tlc("MC_Cache", r)
     if not r.ok:
         raise MachineryError("MC_Cache: %s violated on the specification of the repaired design" % r.violated)
+    rc = run_tlc("CacheConc", "MC_CacheConc", workers=8)
+    chk.add_tlc("MC_CacheConc", rc)
+    if not rc.ok:
+        raise MachineryError("MC_CacheConc: %s violated" % rc.violated)
     if t == "thorough":
+        rn = run_tlc("CacheConc", "MC_CacheConc_neg_nocatch", workers=4)
+        chk.add_tlc("MC_CacheConc_neg_nocatch", rn, expect_violation=True)
+        if rn.ok:
+            raise MachineryError("negative control MC_CacheConc_neg_nocatch was not violated")
         for neg in ("MC_Cache_neg_key", "MC_Cache_neg_halo", "MC_Cache_neg_crash"):
             rn = run_tlc("Cache", neg)
             chk.add_tlc(neg, rn, expect_violation=True)
@@ -365,6 +423,7 @@ def main():
     chk.extra["behaviours_replayed"] = len(pick)
     chk.extra["requests_executed"] = nreq
     chk.extra["truncation_offsets"] = truncation_sweep(chk, work, refs, "all" if t == "thorough" else "sample")
+    chk.extra["concurrent_requests"] = concurrent_stress(chk, work, refs, 3 if t == "quick" else 25)
     os.environ.pop("BLDFM_VERIF_TRACE", None)
     validate_cache_trace(chk, tracefile)
     for l in logs[:: max(1, len(logs) // 3)][:3]:
